@@ -766,7 +766,6 @@ func (c *Ctx) c12Complete(scan *ssa.Function, rmObj *types.Func) {
 	r.Floor("C12/COMPLETE", "RemoveMessage sites in the scan", n, 1)
 }
 
-
 // retentionPeriodField finds the scanner's retention period by what it is used for: the
 // time.Duration field of RetentionScanner whose value — negated, scaled or as it is — becomes
 // the argument of a time.Time.Add or is compared with a time.Since/Sub result (the cutoff), as
